@@ -428,37 +428,49 @@ class StmtMixin(object):
         return v
 
     def havoc_modifies(self, items):
-        """items: 'x.f' (one location), 'elems(x)' (contents and length of list x), '*.f' (whole field)."""
+        """items: 'x.f' (one location), 'elems(x)' / 'contents(x)' (list x), 'dictof(d)', 'ALL.f' (whole field).
+        All targets are resolved in the state BEFORE anything is havocked."""
         ctx = self.ctx
+        todo = []
         for it in items:
             node = ast.parse(it, mode="eval").body
             if isinstance(node, ast.Call) and isinstance(node.func, ast.Name) and node.func.id in ("elems", "contents"):
                 lst = self.ev(node.args[0], True)
-                ety = lst.ty.base.args[0]
-                ctx.set_list_arr(lst, ety, ctx.fresh("hv$elems", z3.ArraySort(z3.IntSort(), sort_of(ety, ctx.num))))
-                if node.func.id == "elems":
-                    nl = ctx.fresh("hv$len", z3.IntSort())
-                    ctx.assume(nl >= 0)
-                    ctx.set_list_len(lst, nl)
+                todo.append((node.func.id, lst))
             elif isinstance(node, ast.Call) and isinstance(node.func, ast.Name) and node.func.id == "dictof":
-                d = self.ev(node.args[0], True)
-                self.dict_havoc(d)
+                todo.append(("dict", self.ev(node.args[0], True)))
             elif isinstance(node, ast.Attribute):
                 if isinstance(node.value, ast.Name) and node.value.id == "ALL":
-                    key = ctx.field_key(node.attr)
-                    if key in ctx.heap:
-                        ctx.heap[key] = ctx.fresh("hv$" + node.attr, ctx.heap[key].sort())
-                    else:
-                        fty = REG.any_field.get(node.attr)
-                        if fty is None:
-                            raise VerifError("modifies ALL.%s: unknown field" % node.attr)
-                        ctx.heap_get(key, lambda: z3.ArraySort(z3.IntSort(), sort_of(fty, ctx.num)))
-                        ctx.heap[key] = ctx.fresh("hv$" + node.attr, ctx.heap[key].sort())
+                    todo.append(("all", node.attr))
                 else:
                     obj = self.ev(node.value, True)
                     fty = self.field_type_for(obj, node.attr)
                     if fty is None:
                         raise VerifError("modifies %s: undeclared field" % it)
-                    ctx.write_field(obj, node.attr, fty, ctx.fresh_of_type("hv$" + node.attr, fty))
+                    todo.append(("field", obj, node.attr, fty))
             else:
                 raise VerifError("modifies item %r" % it)
+        for t in todo:
+            if t[0] in ("elems", "contents"):
+                lst = t[1]
+                if lst is None:
+                    continue
+                ety = lst.ty.base.args[0]
+                ctx.set_list_arr(lst, ety, ctx.fresh("hv$elems", z3.ArraySort(z3.IntSort(), sort_of(ety, ctx.num))))
+                if t[0] == "elems":
+                    nl = ctx.fresh("hv$len", z3.IntSort())
+                    ctx.assume(nl >= 0)
+                    ctx.set_list_len(lst, nl)
+            elif t[0] == "dict":
+                self.dict_havoc(t[1])
+            elif t[0] == "all":
+                key = ctx.field_key(t[1])
+                if key not in ctx.heap:
+                    fty = REG.any_field.get(t[1])
+                    if fty is None:
+                        raise VerifError("modifies ALL.%s: unknown field" % t[1])
+                    ctx.heap_get(key, lambda: z3.ArraySort(z3.IntSort(), sort_of(fty, ctx.num)))
+                ctx.heap[key] = ctx.fresh("hv$" + t[1], ctx.heap[key].sort())
+            else:
+                _, obj, attr, fty = t
+                ctx.write_field(obj, attr, fty, ctx.fresh_of_type("hv$" + attr, fty))
